@@ -12,7 +12,7 @@ from ._tensor import (  # noqa: F401
     half, int32, int64, is_tensor, long, matmul, mm, numel, ones, ones_like,
     outer, reshape, set_default_dtype, split, square, squeeze, stack, tensor,
     transpose, tril, tril_indices, triu, triu_indices, unsqueeze, zeros,
-    zeros_like, mul, add, sub, div, mean,
+    zeros_like, mul, add, sub, div, mean, take, index_select,
 )
 
 float = _tensor.float32  # noqa: A001
